@@ -311,6 +311,10 @@ def run_opmode(ck: Check, prop_file: str, n_quick=(70, 30, 3), n_thorough=(1400,
                   file=sys.stderr)
             cases.extend(gen_cases(ck, ns, nsingle, nv))
     else:
+        # deterministic boundary catalogue shared by the C04 / C06 / C07 / C14 op-mode stages
+        import opboundary
+        if os.environ.get("VERIF_OP_BOUNDARY", "1") != "0":
+            cases.extend(opboundary.cases(ck.prop, ck.seed, ck.quick, n_values=max(2, min(nv, 3))))
         cases.extend(gen_cases(ck, ns, nsingle, nv))
     jobs = []
     flag_cycle = [["gcc", "-O1"]] if ck.quick else [["gcc", "-O0"], ["gcc", "-O1"], ["gcc", "-O2"], ["gcc", "-O3"],
@@ -350,7 +354,7 @@ def run_opmode(ck: Check, prop_file: str, n_quick=(70, 30, 3), n_thorough=(1400,
         pool.defs.append(f"Definition t_{i} : ty := {s.coq_ty()}.")
         groups: List[Tuple[str, List[Any]]] = []
         # ---------------- T1 ----------------
-        if model_ok:
+        if model_ok and "(t2-only)" not in origin:
             try:
                 t1x: List[str] = []
                 t1m: List[Any] = []
